@@ -83,7 +83,15 @@ pub fn live_case(fl: &str, id: &str, g: &GraphSpec, kind: &str, root: usize, tar
 }
 
 pub fn random_script(rng: &mut Rng, n: usize) -> String {
-    let alpha = op_alphabet(n);
+    let mut alpha = op_alphabet(n);
+    // mutations the closure hands to another thread and waits for
+    for u in 0..n {
+        for v in 0..n {
+            alpha.push(format!("hc.{u}.{v}.7"));
+            alpha.push(format!("hd.{u}.{v}"));
+        }
+        alpha.push(format!("hx.{u}"));
+    }
     let ents = 1 + rng.below(3);
     let mut s = vec![];
     for _ in 0..ents {
